@@ -21,6 +21,7 @@ typedef struct {
     int         (*step)(int e);           /* apply event e to implementation+model, compare            */
     int         max_frames;               /* safety: frames per step bound                             */
     int         default_depth;
+    void        (*probe)(void);           /* optional: run in every newly discovered state (must restore the world); may mc_fail() */
 } mc_harness;
 
 /* recording a violation from inside step()/enumeration: signature (stable class name) + details */
